@@ -753,6 +753,103 @@ def skeleton_programs(depth, per_file=12):
     return out
 
 
+def precedence_programs(per_file=10):
+    """every ordered pair of infix operators (and each prefix operator with each infix operator) in both tree shapes,
+    as a function of its leaves called on value tuples that tell the two parses apart; meant to be rendered with
+    MINIMAL_PARENS so that the PARSER has to rebuild the tree from the precedence table"""
+    bool_ops = [('or',), ('and',)]
+    cmp_ops = [('bin', o) for o in ('<', '<=', '>', '>=', '==', '!=')]
+    ar_ops = [('bin', o) for o in ('+', '-', '*', '/', '%')]
+
+    def sig(op):
+        if op in bool_ops:
+            return ('bool', 'bool')
+        if op in cmp_ops:
+            return ('int', 'bool')
+        return ('int', 'int')
+
+    def mk(op, a, b):
+        return (op[0], a, b) if op[0] in ('and', 'or') else ('bin', op[1], a, b)
+
+    def ev(e, env):
+        k = e[0]
+        if k == 'var':
+            return env[e[1]]
+        if k == 'not':
+            return not ev(e[1], env)
+        if k == 'neg':
+            return -ev(e[1], env)
+        if k == 'and':
+            return ev(e[1], env) and ev(e[2], env)
+        if k == 'or':
+            return ev(e[1], env) or ev(e[2], env)
+        a, b = ev(e[2], env), ev(e[3], env)
+        o = e[1]
+        if o in ('/', '%'):
+            if b == 0:
+                raise ZeroDivisionError
+            q = abs(a) // abs(b) * (1 if (a < 0) == (b < 0) else -1)
+            return q if o == '/' else a - q * b
+        return {'+': a + b, '-': a - b, '*': a * b, '<': a < b, '<=': a <= b, '>': a > b, '>=': a >= b, '==': a == b, '!=': a != b}[o]
+
+    trees = []
+    ops = bool_ops + cmp_ops + ar_ops
+    for o1 in ops:
+        for o2 in ops:
+            for shape in (0, 1):
+                # shape 0: o1(A, o2(B, C))   shape 1: o1(o2(A, B), C)
+                in1, out1 = sig(o1)
+                in2, out2 = sig(o2)
+                if out2 != in1:
+                    continue
+                names = iter(['a', 'b', 'c'])
+                leaves = []
+
+                def leaf(t):
+                    n = next(names)
+                    leaves.append((n, t))
+                    return ('var', n)
+                if shape == 0:
+                    x = leaf(in1)
+                    inner = mk(o2, leaf(in2), leaf(in2))
+                    trees.append((mk(o1, x, inner), list(leaves), out1))
+                else:
+                    inner = mk(o2, leaf(in2), leaf(in2))
+                    trees.append((mk(o1, inner, leaf(in1)), list(leaves), out1))
+        in1, out1 = sig(o1)
+        pre = 'not' if in1 == 'bool' else 'neg'
+        trees.append((mk(o1, (pre, ('var', 'a')), ('var', 'b')), [('a', in1), ('b', in1)], out1))
+        trees.append((mk(o1, ('var', 'a'), (pre, ('var', 'b'))), [('a', in1), ('b', in1)], out1))
+        if out1 in ('bool', 'int'):
+            trees.append((('not' if out1 == 'bool' else 'neg', mk(o1, ('var', 'a'), ('var', 'b'))), [('a', in1), ('b', in1)], out1))
+    ints = [(7, 3, 2), (2, 3, 7), (5, 5, 1), (1, 2, 3), (-7, 2, 3), (9, -4, 2), (0, 1, 1), (6, 2, 4)]
+    out = []
+    for start in range(0, len(trees), per_file):
+        prog = []
+        for i, (t, leaves, rt) in enumerate(trees[start:start + per_file]):
+            f = 'p%d' % i
+            prog.append(('asg', f, None, ('fn', leaves, rt, [('ret', t)])))
+            import itertools
+            doms = [([True, False] if ty == 'bool' else None) for _, ty in leaves]
+            tuples = []
+            for tr in ints:
+                for bs in itertools.product([True, False], repeat=sum(1 for d in doms if d)):
+                    bi = iter(bs)
+                    ii = iter(tr)
+                    vals = [next(bi) if d else next(ii) for d in doms]
+                    if vals not in tuples:
+                        tuples.append(vals)
+            for vals in tuples:
+                try:
+                    ev(t, {n: v for (n, _), v in zip(leaves, vals)})
+                except ZeroDivisionError:
+                    continue
+                args = [('bool', v) if isinstance(v, bool) else ('int', v) for v in vals]
+                prog.append(('print', ('call', ('var', f), args)))
+        out.append(prog)
+    return out
+
+
 # ---------------------------------------------------------------- shrinking (delta debugging over statement lists)
 def shrink(prog, still_fails, budget=150):
     """greedy: try dropping each statement / replacing a compound statement by its body, anywhere in the tree"""
